@@ -21,6 +21,68 @@ os.environ.setdefault("PANOPTICA_CITATION_REMINDER", "false")
 
 import numpy as np  # noqa: E402
 
+# ------------------------------------------------------------------ locks created by the aggregator module
+# Whatever locks panoptica.panoptica_aggregator creates (module level or later, multiprocessing or threading,
+# under whatever name) are handed out as proxies that forward to a hook (vf.sched) when one is installed --
+# so that lock tracing does not depend on the names of module globals.
+import multiprocessing as _mp  # noqa: E402
+import threading as _threading  # noqa: E402
+
+LOCK_PROXIES = []
+LOCK_HOOK = None  # object with acquire(proxy, *a, **k) and release(proxy); set by vf.sched.install()
+_LOCK_MODULES = ("panoptica.panoptica_aggregator",)
+
+
+class LockProxy:
+    def __init__(self, real, factory, reentrant, created_in):
+        self.real = real
+        self.factory = factory
+        self.reentrant = reentrant
+        self.created_in = created_in
+        self.name = "lock%d%s" % (len(LOCK_PROXIES), "R" if reentrant else "")
+        LOCK_PROXIES.append(self)
+
+    def acquire(self, *a, **k):
+        if LOCK_HOOK is not None:
+            return LOCK_HOOK.acquire(self, *a, **k)
+        return self.real.acquire(*a, **k)
+
+    def release(self):
+        if LOCK_HOOK is not None:
+            return LOCK_HOOK.release(self)
+        return self.real.release()
+
+    def __enter__(self):
+        self.acquire()
+        return self
+
+    def __exit__(self, *a):
+        self.release()
+        return False
+
+    def fresh(self):
+        """a new, unlocked lock of the same kind (what a new process would have)"""
+        self.real = self.factory()
+
+    def __getattr__(self, k):
+        return getattr(self.real, k)
+
+
+def _proxy_factory(orig, reentrant):
+    def factory(*a, **k):
+        real = orig(*a, **k)
+        mod = sys._getframe(1).f_globals.get("__name__", "")
+        if mod in _LOCK_MODULES:
+            return LockProxy(real, lambda: orig(*a, **k), reentrant, mod)
+        return real
+
+    return factory
+
+
+_ORIG_LOCKS = {"mp.Lock": _mp.Lock, "mp.RLock": _mp.RLock, "th.Lock": _threading.Lock, "th.RLock": _threading.RLock}
+_mp.Lock, _mp.RLock = _proxy_factory(_mp.Lock, False), _proxy_factory(_mp.RLock, True)
+_threading.Lock, _threading.RLock = _proxy_factory(_threading.Lock, False), _proxy_factory(_threading.RLock, True)
+
 with contextlib.redirect_stdout(io.StringIO()):
     import panoptica  # noqa: E402
     import panoptica._functionals as _functionals  # noqa: E402
@@ -139,13 +201,21 @@ class SerialPool:
 _REAL_POOLS = {}
 
 
+POOL_SITES = []  # modules of the tree under check that bind a name `Pool`
+
+
 def use_serial_pool(on: bool = True):
-    for mod in (_functionals, _instance_evaluator):
-        if not hasattr(mod, "Pool"):
-            raise SystemExit(f"INCONCLUSIVE reason={mod.__name__}.Pool not found; cannot substitute")
-        if mod not in _REAL_POOLS:
-            _REAL_POOLS[mod] = mod.Pool
-        mod.Pool = SerialPool if on else _REAL_POOLS[mod]
+    """replace multiprocessing pools by the in-process stand-in wherever the library binds the name `Pool`
+    (an implementation that does not use a pool there simply has nothing to substitute)"""
+    import types
+
+    mods = [m for n, m in list(sys.modules.items()) if n.startswith("panoptica") and isinstance(m, types.ModuleType)]
+    for mod in mods:
+        if mod in _REAL_POOLS or (hasattr(mod, "Pool") and getattr(mod.Pool, "__module__", "").startswith("multiprocessing") and not isinstance(mod.Pool, type)):
+            if mod not in _REAL_POOLS:
+                _REAL_POOLS[mod] = mod.Pool
+                POOL_SITES.append(mod.__name__)
+            mod.Pool = SerialPool if on else _REAL_POOLS[mod]
 
 
 use_serial_pool(True)
